@@ -20,7 +20,18 @@ class RunFailed(Exception):
     """The run's process did not produce a result (harness problem, never a verdict)."""
 
 
-def fork_run(fn: typing.Callable[..., typing.Any], *args, real_timeout: float = 120.0):
+def seed_identity(seed: int) -> None:
+    """uuid4 (node uids, group ids, state ids) and the global `random` become functions of the run's seed."""
+    import random  # pylint: disable=import-outside-toplevel
+    import uuid  # pylint: disable=import-outside-toplevel
+
+    rng = random.Random(seed ^ 0x1D)
+    random.seed(seed)
+    uuid.uuid4 = lambda: uuid.UUID(int=rng.getrandbits(128), version=4)
+
+
+def fork_run(fn: typing.Callable[..., typing.Any], *args, real_timeout: float = 120.0,
+             seed: typing.Optional[int] = None):
     rfd, wfd = os.pipe()
     sys.stdout.flush()
     sys.stderr.flush()
@@ -29,6 +40,8 @@ def fork_run(fn: typing.Callable[..., typing.Any], *args, real_timeout: float = 
         code = 3
         try:
             os.close(rfd)
+            if seed is not None:
+                seed_identity(seed)
             try:
                 payload = ('ok', fn(*args))
             except BaseException as err:  # pylint: disable=broad-except
